@@ -4,6 +4,7 @@ import (
 	"context"
 	"fmt"
 	"sync/atomic"
+	"time"
 
 	"github.com/0chain/common/core/statecache"
 	"github.com/0chain/common/core/util"
@@ -15,7 +16,7 @@ import (
 // several committers and readers at once.
 func StressScenarios(prop string) []sched.Scenario {
 	if prop == "C16" {
-		return []sched.Scenario{longMissingNodeHistory(), failingSaves()}
+		return []sched.Scenario{longMissingNodeHistory(), failingSaves(), cancelledSaves()}
 	}
 	if prop != "C08" {
 		return nil
@@ -171,6 +172,75 @@ func failingSaves() sched.Scenario {
 				if b != "" {
 					return "", b
 				}
+			}
+			return "", ""
+		}
+	}}
+}
+
+// slowDB is a save target whose batch write takes a while, so that a save with a short deadline returns (context
+// error) while its worker goroutine is still writing.
+type slowDB struct{ *util.MemoryNodeDB }
+
+func (d slowDB) MultiPutNode(keys []util.Key, nodes []util.Node) error {
+	time.Sleep(300 * time.Microsecond)
+	return d.MemoryNodeDB.MultiPutNode(keys, nodes)
+}
+
+// cancelledSaves: saves (with deletes) whose context expires while the store is still writing, next to writers
+// and a reader of the same trie. A save that gave up must not leave a goroutine behind that reads the trie's
+// live change set (the race detector watches), and whatever a save wrote completely must be a state the trie
+// was in: after the threads stopped, a final uncancelled save must leave the target able to read the final content.
+func cancelledSaves() sched.Scenario {
+	return sched.Scenario{Name: "stress-cancelled-saves", Make: func() ([]func(), func() (string, string)) {
+		db := util.NewMemoryNodeDB()
+		t := util.NewMerklePatriciaTrie(db, 1, nil, statecache.NewEmpty())
+		for _, kv := range mptPre {
+			_, _ = t.Insert(util.Path(kv[0]), &util.SecureSerializableValue{Buffer: []byte(kv[1])})
+		}
+		target := slowDB{util.NewMemoryNodeDB()}
+		bad := make([]string, 4)
+		bodies := []func(){
+			func() {
+				for i := 0; i < 150; i++ {
+					ctx, cancel := context.WithTimeout(context.Background(), time.Duration(50+i%200)*time.Microsecond)
+					_ = t.SaveChanges(ctx, target, true)
+					cancel()
+				}
+			},
+			func() {
+				for i := 0; i < 300; i++ {
+					_, _ = t.Insert(util.Path("0a1d"), &util.SecureSerializableValue{Buffer: []byte{byte(i), 1}})
+					_, _ = t.Delete(util.Path("0a1d"))
+				}
+			},
+			func() {
+				for i := 0; i < 300; i++ {
+					_, _ = t.Delete(util.Path("0b22"))
+					_, _ = t.Insert(util.Path("0b22"), &util.SecureSerializableValue{Buffer: []byte{byte(i), 2}})
+				}
+			},
+			func() {
+				for i := 0; i < 300; i++ {
+					if v, err := t.GetNodeValueRaw(util.Path("0a1b")); err != nil || string(v) != "p" {
+						bad[3] = fmt.Sprintf("lookup of an untouched key returned %q, %v", v, err)
+					}
+				}
+			},
+		}
+		return bodies, func() (string, string) {
+			for _, b := range bad {
+				if b != "" {
+					return "", b
+				}
+			}
+			time.Sleep(5 * time.Millisecond) // let abandoned save workers finish
+			if err := t.SaveChanges(context.Background(), target, false); err != nil {
+				return "", "final SaveChanges: " + err.Error()
+			}
+			t2 := util.NewMerklePatriciaTrie(target.MemoryNodeDB, 1, t.GetRoot(), statecache.NewEmpty())
+			if has, err := t2.HasMissingNodes(context.Background()); err != nil || has {
+				return "", fmt.Sprintf("after the final save the target store cannot read the trie's root: missing nodes %v, %v", has, err)
 			}
 			return "", ""
 		}
